@@ -11,6 +11,8 @@ import SradModel.Drv.Admit
 import SradModel.Drv.Derive
 import SradModel.Drv.HostLoop
 import SradModel.Drv.Topic
+import SradModel.Drv.Eon
+import SradModel.Drv.Metric
 
 open Srad Srad.Drv
 
@@ -20,6 +22,7 @@ structure DState where
   templ : Templ.Registry := []
   derive : Option Derive.Schema := none
   hostloop : HLState := {}
+  eon : EonD := {}
 
 def step (st : DState) (line : String) : DState × String :=
   match words line with
@@ -32,6 +35,10 @@ def step (st : DState) (line : String) : DState × String :=
     ({ st with host := h }, o)
   | "admit" :: rest => (st, stepAdmit rest)
   | "topic" :: rest => (st, stepTopic rest)
+  | "metric" :: rest => (st, stepMetric rest)
+  | "eon" :: rest =>
+    let (e, o) := stepEon st.eon rest
+    ({ st with eon := e }, o)
   | "hostloop" :: rest =>
     let (h, o) := stepHostLoop st.hostloop rest
     ({ st with hostloop := h }, o)
